@@ -10,7 +10,9 @@ import (
 // RESTORE (C13): a function that saves a map entry (`old := M[k]`), overwrites it temporarily
 // (`M[k] = x`) and later puts the saved value back (`M[k] = old`) must put it back on every
 // path from the temporary store to a normal function exit. Instances are discovered by that
-// shape in every module package; nothing is matched by name.
+// shape in every module package; nothing is matched by name. The save may be the comma-ok
+// form (`old, present := M[k]`); then `delete(M, k)` also counts as putting the entry back (for
+// an entry that was absent). Which of the two is right for a given path is not decided.
 func init() {
 	register(&Rule{
 		Name:  "RESTORE",
@@ -29,14 +31,16 @@ func runRestore(c *Ctx) []Obligation {
 		info := p.TypesInfo
 		for _, u := range c.units(p, true) {
 			type saved struct {
-				obj  types.Object
-				m, k ast.Expr
-				pos  token.Pos
+				obj     types.Object
+				m, k    ast.Expr
+				pos     token.Pos
+				commaOK bool
 			}
 			var saves []saved
 			inspectShallow(u.body, func(n ast.Node) bool {
 				as, ok := n.(*ast.AssignStmt)
-				if !ok || len(as.Lhs) != 1 || len(as.Rhs) != 1 {
+				// `old := M[k]` or the comma-ok form `old, present := M[k]`
+				if !ok || len(as.Lhs) < 1 || len(as.Lhs) > 2 || len(as.Rhs) != 1 {
 					return true
 				}
 				ix, ok := ast.Unparen(as.Rhs[0]).(*ast.IndexExpr)
@@ -51,7 +55,7 @@ func runRestore(c *Ctx) []Obligation {
 					return true
 				}
 				if obj := info.ObjectOf(id); obj != nil {
-					saves = append(saves, saved{obj, ix.X, ix.Index, as.Pos()})
+					saves = append(saves, saved{obj, ix.X, ix.Index, as.Pos(), len(as.Lhs) == 2})
 				}
 				return true
 			})
@@ -61,7 +65,15 @@ func runRestore(c *Ctx) []Obligation {
 			ord := 0
 			for _, s := range saves {
 				var temps, restores []*ast.AssignStmt
+				var deletes []ast.Node // delete(M, k): puts an absent entry back (comma-ok save)
 				inspectShallow(u.body, func(n ast.Node) bool {
+					if es, ok := n.(*ast.ExprStmt); ok && s.commaOK && es.Pos() > s.pos {
+						if call, ok := es.X.(*ast.CallExpr); ok && isBuiltin(info, call, "delete") && len(call.Args) == 2 &&
+							sameExpr(info, call.Args[0], s.m) && sameExpr(info, call.Args[1], s.k) {
+							deletes = append(deletes, es)
+						}
+						return true
+					}
 					as, ok := n.(*ast.AssignStmt)
 					if !ok || as.Tok != token.ASSIGN || len(as.Lhs) != 1 || len(as.Rhs) != 1 || as.Pos() <= s.pos {
 						return true
@@ -84,6 +96,11 @@ func runRestore(c *Ctx) []Obligation {
 				isRestore := func(n ast.Node) bool {
 					for _, r := range restores {
 						if n == ast.Node(r) {
+							return true
+						}
+					}
+					for _, d := range deletes {
+						if n == d {
 							return true
 						}
 					}
